@@ -9,6 +9,7 @@ EXPLANATION = (
     "produces a value — integer results come from checked_* calls or from i128 widening whose narrowing cast back to i64 is dominated by a range "
     "test of the same value (comparison or RangeInclusive::contains). Index normalisation (`len + index`) and calendar-field arithmetic are named "
     "exceptions. Three-valued logic, equality and int/float comparison are value-level laws and are not decided."
+    " Added with the TRUTH engine: C23.4 Kleene folds (a null element result never ends list / map equality or IN); C23.5 AND / OR / XOR / NOT truth tables on {true, false, null} (30 rows, decided by walking the match's MIR decision tree per abstract input); C23.6 null propagation — each arithmetic / comparison / equality / string operator arm dispatches to a function whose match returns null for a null operand, for all 16 operand variants; C23.7 range comparison, ordering and equality never convert an integer operand to f64 on the (Int, Int), (Int, Float), (Float, Int) paths. Equality / ordering inside lists, maps and strings and transitivity in general remain value-level."
 )
 
 CORE_PREFIX = ("nervusdb_query::evaluator::evaluator_numeric::", "nervusdb_query::evaluator::evaluator_arithmetic::",
